@@ -128,6 +128,19 @@ Separate(ga, gb, tb, fb) ==
        \/ gb.type \in PointKinds /\ ga.type = "BoundingBox" /\ \A p \in PointsOf(gb) : ClearOfBox(p, ga.coordinates, tb, fb)
        \/ ga.type \in PointKinds /\ gb.type \in PointKinds /\ \A p \in PointsOf(ga), q \in PointsOf(gb) : ClearOfPoint(p, q, tb, fb)
 
+\* Conversely a buffered point reaches exactly tb (fb) from the point along the time (frequency) axis: when it lies level
+\* with a box of positive area and closer to it than the buffer, the two regions share area -- the affinity is positive,
+\* also when the raw point is outside the box and they overlap ONLY through the buffer.
+ReachesBox(p, b, tb, fb) ==
+    LET dx == Gap1(b[1], b[3], p[1])  df == Gap1(b[2], b[4], p[2])
+    IN  (df = 0 /\ dx < tb /\ p[2] > b[2] /\ p[2] < b[4]) \/ (dx = 0 /\ df < fb /\ p[1] > b[1] /\ p[1] < b[3])
+Overlapping(ga, gb, tb, fb) ==
+    /\ tb > 0 /\ fb > 0
+    /\ \/ ga.type \in PointKinds /\ gb.type = "BoundingBox" /\ BoxArea(gb.coordinates) > 0
+          /\ \E p \in PointsOf(ga) : ReachesBox(p, gb.coordinates, tb, fb)
+       \/ gb.type \in PointKinds /\ ga.type = "BoundingBox" /\ BoxArea(ga.coordinates) > 0
+          /\ \E p \in PointsOf(gb) : ReachesBox(p, ga.coordinates, tb, fb)
+
 TimeOnlyPair(k1, k2) == k1 \in TimeKinds \/ k2 \in TimeKinds
 BoxPair(k1, k2)      == k1 = "BoundingBox" /\ k2 = "BoundingBox"
 
@@ -206,7 +219,7 @@ ObsDisjoint(o, s) ==
 \* neither buffered geometry reaches time 0
 AwayFromZero(o, s) == /\ Pos(RecExt(K1(o), s.e1, 1)[1]) /\ Pos(RecExt(K2(o), s.e2, 1)[1])
 
-Clauses == {"Range", "Sym", "Self", "DisjointInTime", "DisjointRegions", "BoxIoU", "RectIoU", "TimeOnly", "Shift"}
+Clauses == {"Range", "Sym", "Self", "DisjointInTime", "DisjointRegions", "OverlapPositive", "BoxIoU", "RectIoU", "TimeOnly", "Shift"}
 
 HoldsRun(cl, o, run) ==
     LET tb == o.in.tb  fb == o.in.fb IN
@@ -234,6 +247,9 @@ HoldsRun(cl, o, run) ==
       [] cl = "DisjointRegions" ->
             IsLat(o) => \A k \in 1..Len(Calls(o, run)) :
                             LET c == Calls(o, run)[k] IN Separate(c[1], c[2], tb, fb) => IsZero(c[3])
+      [] cl = "OverlapPositive" ->
+            IsLat(o) => \A k \in 1..Len(Calls(o, run)) :
+                            LET c == Calls(o, run)[k] IN Overlapping(c[1], c[2], tb, fb) => (Ret(c[3]) /\ c[3].l[1] = 1)
       [] cl = "BoxIoU" ->
             IsLat(o) => \A k \in 1..Len(Calls(o, run)) :
                             LET c == Calls(o, run)[k] IN ExactBox(c[1], c[2], c[3])
